@@ -49,8 +49,12 @@ ExpandArith(h) ==
                   \cup { <<0, Cmp("gt", IntL(0), HI)>>, <<0, Cmp("in", HI, Lst(<<IntL(-2), IntL(3)>>))>> }
                   \cup { <<0, Cmp(o, Hole("N"), c)>> : o \in {"eq", "lt", "ge"}, c \in {FL("0.5"), FL("1.5"), FL("2.5"), IntL(1)} }
                   \* literals written with an exponent: tiny, negative, upper-case E, explicit sign
-                  \cup { <<0, Cmp(o, HI, c)>> : o \in {"lt", "gt"}, c \in {FL("1e-7"), FL("-1e-7"), FL("2.5e-1"), FL("1E3"), FL("1.5e+1")} }
-                  \cup { <<0, Cmp("in", HI, Lst(<<FL("1e-7"), FL("1e0"), FL("3.0e0")>>))>>, <<0, Cmp("lt", FL("-2.5E-1"), Hole("N"))>> }
+                  \cup { <<0, Cmp(o, HI, c)>> : o \in {"lt", "gt"}, c \in {FL("2.5e-1"), FL("1E3"), FL("1.5e+1")} }
+                  \* (the tiny ones only next to shallow operands: TLC's integers are 32 bit, and a denominator of 10^7
+                  \*  overflows once the other side exceeds 214)
+                  \cup { <<0, Cmp(o, x, c)>> : o \in {"lt", "gt"}, x \in {nC, mC, Bin("sub", nC, mC)}, c \in {FL("1e-7"), FL("-1e-7")} }
+                  \cup { <<0, Cmp("in", x, Lst(<<FL("1e-7"), FL("1e0"), FL("3.0e0")>>))>> : x \in {nC, Bin("add", nC, mC)} }
+                  \cup { <<0, Cmp("lt", FL("-2.5E-1"), Hole("N"))>> }
     [] h = "N" -> { <<1, Bin(o, HI, f)>> : o \in {"div", "mul", "add", "sub"}, f \in {FL("2.0"), FL("0.5")} }
                   \cup { <<1, Bin("sub", FL("1.5"), HI)>>, <<1, Bin("mul", FL("-0.5"), HI)>> }
     [] h = "I" -> { <<0, x>> : x \in {nC, mC, IntL(-2), IntL(1), IntL(3)} }
